@@ -186,6 +186,8 @@ structure FileSt where
   counter : String → Nat               -- *( int * )schema->clientData
   printed : List (String × Nat)        -- SCHEMAprint( schema, …, suffix ) calls, in order
   hung : Bool := false                 -- a sweep loop did not finish within its fuel
+  progress : Bool := true              -- `progress`: did the previous round over the schemas print anything?
+  printedNow : Bool := false           -- `printed`: has the current round printed anything yet?
 
 /-- `unsetObjs( schema )`: the schema's own CANTPROCESS objects become NOTKNOWN again -/
 def unsetObjs (p : PSchema) (m : Marks) : Marks :=
@@ -205,28 +207,41 @@ def finishVisit (fs : FileSt) (p : PSchema) (s : St) : FileSt :=
   { marks := fun n => if any && isOwn n && s.marks n == .canprocess then .processed else s.marks n,
     unprocessed := fun n => if n = p.name then s.schemaUnprocessed else fs.unprocessed n,
     counter := fun n => if n = p.name ∧ any ∧ suffix > 0 then suffix else fs.counter n,
-    printed := if any then fs.printed ++ [(p.name, suffix)] else fs.printed }
+    printed := if any then fs.printed ++ [(p.name, suffix)] else fs.printed,
+    hung := fs.hung, progress := fs.progress, printedNow := fs.printedNow || any }
 
-/-- one visit of a schema that is still UNPROCESSED in `print_schemas_separate` -/
-def visitSchema (l : SweepLoop) (lc : EnumLastCase) (fs : FileSt) (p : PSchema) : FileSt :=
+/-- the deferral (fix C17-5): nothing is printed, `resetCanProcess` takes the CANPROCESS verdicts of the schema's own objects
+    back, the schema stays UNPROCESSED -/
+def deferVisit (fs : FileSt) (p : PSchema) (s : St) : FileSt :=
+  let isOwn (n : String) : Bool := p.own.any (fun o => o.name == n)
+  { marks := fun n => if isOwn n && s.marks n == .canprocess then .notknown else s.marks n,
+    unprocessed := fun n => if n = p.name then true else fs.unprocessed n,
+    counter := fs.counter, printed := fs.printed, hung := fs.hung, progress := fs.progress, printedNow := fs.printedNow }
+
+/-- one visit of a schema that is still UNPROCESSED in `print_schemas_separate`; `defer` = the tree has the deferral of
+    partially printable schemas (regenerated: `deferPartial`) -/
+def visitSchema (defer : Bool) (l : SweepLoop) (lc : EnumLastCase) (fs : FileSt) (p : PSchema) : FileSt :=
   if !fs.unprocessed p.name || fs.hung then fs else
   match passResult l lc p (unsetObjs p fs.marks) with
   | none => { fs with hung := true }
-  | some s => finishVisit fs p s
+  | some s =>
+    if defer && (p.own.any fun o => s.marks o.name == .canprocess) && s.schemaUnprocessed && fs.counter p.name == 0 && fs.progress
+    then deferVisit fs p s else finishVisit fs p s
 
-/-- one round of `while( !complete )`: every schema in DICTdo order -/
-def round (l : SweepLoop) (lc : EnumLastCase) (schemas : List PSchema) (fs : FileSt) : FileSt :=
-  schemas.foldl (visitSchema l lc) fs
+/-- one round of `while( !complete )`: every schema in DICTdo order; `progress = printed` at its end -/
+def round (defer : Bool) (l : SweepLoop) (lc : EnumLastCase) (schemas : List PSchema) (fs : FileSt) : FileSt :=
+  let r := schemas.foldl (visitSchema defer l lc) { fs with printedNow := false }
+  { r with progress := r.printedNow }
 
-def rounds (l : SweepLoop) (lc : EnumLastCase) (schemas : List PSchema) : Nat → FileSt → FileSt
+def rounds (defer : Bool) (l : SweepLoop) (lc : EnumLastCase) (schemas : List PSchema) : Nat → FileSt → FileSt
   | 0, fs => fs
-  | n + 1, fs => if schemas.any (fun p => fs.unprocessed p.name) && !fs.hung then rounds l lc schemas n (round l lc schemas fs) else fs
+  | n + 1, fs => if schemas.any (fun p => fs.unprocessed p.name) && !fs.hung then rounds defer l lc schemas n (round defer l lc schemas fs) else fs
 
 def fileStart : FileSt :=
   { marks := fun _ => .notknown, unprocessed := fun _ => true, counter := fun _ => 0, printed := [] }
 
 /-- the `SCHEMAprint` calls exp2cxx makes for a file (fuel = number of rounds allowed) -/
-def printFile (l : SweepLoop) (lc : EnumLastCase) (schemas : List PSchema) (fuel : Nat) : FileSt :=
-  rounds l lc schemas fuel fileStart
+def printFile (l : SweepLoop) (lc : EnumLastCase) (schemas : List PSchema) (fuel : Nat) (defer : Bool := deferPartial) : FileSt :=
+  rounds defer l lc schemas fuel fileStart
 
 end StepModel.GenFiles.Pass
